@@ -47,7 +47,7 @@ SHP = {"s": (), "3": (3,), "2x2": (2, 2), "1x3": (1, 3)}
 SHN = ["s", "3", "2x2", "1x3"]
 OUT = {"s": (), "2": (2,), "2x3": (2, 3)}
 KINDS = ["pure", "nn", "em", "sib", "nn_tied"]     # nn_tied: one Parameter registered in two sub-modules
-XB = [(), (4,), (2, 1)]
+XB = [(), (4,), (2, 1), ("e", 3, 2)]
 DT = torch.float64
 
 
@@ -280,7 +280,12 @@ def operand(prod, xb, nout, nin, g):
     if prod in ("fullmatrix", "H.fullmatrix"):
         return None
     n = nin if prod in ("mv", "mm", "H.rmv") else nout
-    shp = tuple(xb) + ((n, 2) if prod in ("mm", "rmm") else (n,))
+    tail = (n, 2) if prod in ("mm", "rmm") else (n,)
+    if xb and xb[0] == "e":
+        # an EXPANDED batch: xb[2:] different operands, repeated xb[1] times along a leading axis of stride 0
+        base = randn(tuple(xb[2:]) + tail, DT, g)
+        return base.unsqueeze(0).expand((xb[1],) + tuple(base.shape))
+    shp = tuple(xb) + tail
     return randn(shp, DT, g)
 
 
@@ -647,6 +652,30 @@ def run_case(cfg):
         for op, i in zip(res, expect):
             nops += 1
             light_check(ck, world, op, i, name)
+        if len(res) >= 2 and name in ("None", "list" + "".join(map(str, reversed(world.gradpos)))):
+            # operators returned by ONE call are independent objects: while the explicit parameters of one of them
+            # are substituted (as the backward pass of solve does), the products of the others are still the
+            # Jacobian / Hessian at the point they were built at
+            for j, opj in enumerate(res):
+                oj = call(opj.getlinopparams)
+                ck.n += 1
+                if oj.exc is not None:
+                    continue
+                lp = list(oj.value)
+                gj = gen(900 + j)
+                new = [(t.detach() + 0.3 * randn(tuple(t.shape), DT, gj).to(t.dtype))
+                       if any(t is world.params[q] for q in world.gradpos) else t for t in lp]
+
+                def others():
+                    with opj.uselinopparams(*new):
+                        for k, (opk, ik) in enumerate(zip(res, expect)):
+                            if k != j:
+                                ck.values(opk, world.dense_functional(ik), ik, ["mv", "rmv", "fullmatrix"], [()],
+                                          gen(2100 + ik), change="sibling-substituted")
+                oo = call(others)
+                ck.n += 1
+                if oo.exc is not None:
+                    ck.report(exc_fail(oo.exc), {"in": "sibling substitution"}, idxs=name, product="sibling")
     for name, idxs in bad:
         o = call(world.make, idxs)
         ck.n += 1
